@@ -131,7 +131,7 @@ pub fn corruptions(a: &Array, rng: &mut Rng) -> Vec<(String, Array)> {
         A::Union(x) => {
             if !x.types.is_empty() { let i = rng.below(x.types.len());
                 for t in [x.fields.len() as i8, -1, 127] { let mut y = x.clone(); y.types[i] = t; out.push((format!("type_id={}", t), A::Union(y))); }
-                if let Some(o) = &x.offsets { for z in [-1, 1_000_000, i32::MAX] { let mut oo = o.clone(); oo[i] = z; let mut y = x.clone(); y.offsets = Some(oo); out.push((format!("union_offset={}", z), A::Union(y))); } }
+                if let Some(o) = &x.offsets { if i < o.len() { for z in [-1, 1_000_000, i32::MAX] { let mut oo = o.clone(); oo[i] = z; let mut y = x.clone(); y.offsets = Some(oo); out.push((format!("union_offset={}", z), A::Union(y))); } } }
                 { let mut y = x.clone(); if let Some(o) = &mut y.offsets { o.pop(); } out.push(("union_offsets_popped".into(), A::Union(y))); }
                 { let mut y = x.clone(); y.types.pop(); out.push(("union_types_popped".into(), A::Union(y))); }
             }
